@@ -485,3 +485,14 @@ fn test_ll_default() {
     assert!(table.decode[59].num_bits == 5);
     assert!(table.decode[59].base_line == 32);
 }
+
+/// Verification hooks: pass-through to the private code tables.
+#[cfg(killingspark_zstd_rs_verif)]
+pub fn verif_lookup_ll_code(code: u8) -> (u32, u8) {
+    lookup_ll_code(code)
+}
+
+#[cfg(killingspark_zstd_rs_verif)]
+pub fn verif_lookup_ml_code(code: u8) -> (u32, u8) {
+    lookup_ml_code(code)
+}
